@@ -17,7 +17,7 @@ RULE = ("writers over (format in {XML, protobuf}) x (precision in 1..12) x 2 gen
         "distinct = (configuration pair, history); non-trivial = history with >=2 writes or >=2 writers")
 ANCHORS = ["XMLFileWriter.write_to_file", "XMLFileWriter.write_scenario_to_file", "ProtobufFileWriter.write_to_file",
            "ProtobufFileWriter.write_scenario_to_file", "FileWriter._handle_file_path", "float_to_str"]
-REQUIRED = ["event.construct", "event.write", "event.write-scenario", "event.skip", "same-writer-twice",
+REQUIRED = ["event.construct", "event.write", "event.write-scenario", "event.skip", "skip.existing-empty", "skip.existing-bytes", "same-writer-twice",
             "other-writer-constructed-in-between", "other-format-in-between", "identically-constructed-second-writer",
             "reference-read-back-ok"]
 EXHAUSTIVE = {"quick": "all valid event histories of length <= 3 over 2 writers x 4 configuration pairs",
@@ -69,6 +69,8 @@ def run(ctx):
                         if os.path.exists(p):
                             os.remove(p)
         return refs[key]
+
+    skip_n = [0]
 
     def run_history(cfgs, events, seed, tag):
         """cfgs: {name: (fmt, precision)}, events: list of (kind, name)"""
@@ -131,8 +133,12 @@ def run(ctx):
                 elif kind == "skip":
                     from commonroad.common.file_writer import OverwriteExistingFile
                     ctx.feature("event.skip")
+                    skip_n[0] += 1
+                    existing = [b"existing content \x00\x01 must stay", b"", b"\n", b"<?xml version='1.0'?><commonRoad/>",
+                                bytes(range(256)) * 40][skip_n[0] % 5]
+                    ctx.feature("skip.existing-" + ["bytes", "empty", "newline", "xml-stub", "10k-binary"][skip_n[0] % 5])
                     with open(path, "wb") as f:
-                        f.write(b"existing content \x00\x01 must stay")
+                        f.write(existing)
                     os.utime(path, (1000000000, 1000000000))
                     before = (open(path, "rb").read(), os.stat(path).st_mtime_ns)
                     import contextlib
